@@ -11,7 +11,7 @@ LEVEL_TEXT = ("Fitted WassersteinVectorizer (LOT_exact, LOT_sinkhorn) and Sinkho
               "different memory_size / chunk sizes, and the same data as sparse matrix, lists and generators; embeddings must coincide. With "
               "n_components = n_rows the pairwise Euclidean distances of embedding_ must equal those of the raw LOT vectors returned by the "
               "public lot_vectors_sparse_internal. HeuristicLinearAlgebra / ApproximateWasserstein take their vectors at fit, so for them the "
-              "re-encodings are applied to a re-fit and rotation-proof pairwise distances are compared. A seventh of the exact-LOT cases run with an active max_distribution_size truncation (distinct weights, so the kept points are determined; the split relation is not a symmetry there and is skipped). Held = no violation on the executions produced.")
+              "re-encodings are applied to a re-fit and rotation-proof pairwise distances are compared. A seventh of the exact-LOT cases run with an active max_distribution_size truncation (distinct weights, so the kept points are determined; the split relation is not a symmetry there and is skipped). Compiled workers also fit 600-900 distributions from a generator and from lists under a memory budget that forces several blocks of more than 256 rows (full-rank components) and compare the embeddings. Held = no violation on the executions produced.")
 LEVEL_NOTE = "Vectors are continuous random, so exact optimal plans are almost surely unique; tolerance 1e-9*scale for exact LOT, 1e-6*scale for entropic (Sinkhorn) pipelines whose iterations stop on a tolerance; 1e-3 for distances after a multi-block fit (blocks are spilled as float32)."
 RULE = ("case = (vectors, distributions, metric, method, reference, memory size); one evaluation per relation; non-trivial when X' has >= 3 rows with "
         "pairwise different supports and the reference has >= 2 points; distinct = hash of the case + relation")
@@ -20,8 +20,8 @@ ASSUMPTIONS = [
     "the reference is passed explicitly when formats are compared, so that all three input formats share it",
 ]
 MIN_NONTRIVIAL = {"quick": 100, "thorough": 1000}
-REQUIRED = {"quick": {"relations_checked": 900, "format_comparisons": 30, "full_rank_distance_checks": 30, "refit_relations": 100, "jit_relations_checked": 300, "bigbatch_relations": 8, "truncated_rows": 30},
-            "thorough": {"relations_checked": 9000, "format_comparisons": 400, "full_rank_distance_checks": 400, "refit_relations": 1000, "jit_relations_checked": 3000, "bigbatch_relations": 80, "truncated_rows": 300}}
+REQUIRED = {"quick": {"relations_checked": 900, "format_comparisons": 30, "full_rank_distance_checks": 30, "refit_relations": 100, "jit_relations_checked": 300, "bigbatch_relations": 8, "truncated_rows": 30, "big_generator_fits": 1},
+            "thorough": {"relations_checked": 9000, "format_comparisons": 400, "full_rank_distance_checks": 400, "refit_relations": 1000, "jit_relations_checked": 3000, "bigbatch_relations": 80, "truncated_rows": 300, "big_generator_fits": 4}}
 
 
 def plan(tier, seed):
@@ -277,7 +277,47 @@ def check_refit(ctx, c):
     ctx.ok(sg, True)
 
 
+def check_big_generator(ctx, c):
+    """Generator input with more distributions per block than the kernels' chunk size (256): same embedding as list input."""
+    import vectorizers as V
+    from scipy.spatial.distance import pdist
+
+    rs = np.random.RandomState(c["seed"])
+    npts, dim, n = 8, 2, c["n"]
+    shift = 2.0 if c["metric"] == "cosine" else 0.0
+    vec = rs.normal(size=(npts, dim)) + shift
+    X = _measures(rs, n, npts, 0.4)
+    refv = rs.normal(size=(4, dim)) + shift
+    if c["metric"] == "cosine":
+        refv /= np.linalg.norm(refv, axis=1, keepdims=True)
+    refd = rs.dirichlet(np.ones(4) * 3)
+    sg = hash(str(c)) % 10**12
+    dl, vl = _lil(X, vec)
+    kw = dict(n_components=refv.size, metric=c["metric"], random_state=11, memory_size=c["memory_size"])  # full rank: the incremental SVD is then exact whatever the blocking
+    try:
+        t_l = V.WassersteinVectorizer(input_method="lil", **kw).fit_transform(dl, vectors=vl, reference_vectors=refv, reference_distribution=refd)
+        e_g = V.WassersteinVectorizer(input_method="generator", generator_vector_dim=dim, generator_n_distributions=n, **kw)
+        t_g = e_g.fit_transform((d for d in dl), vectors=(v for v in vl), reference_vectors=refv, reference_distribution=refd)
+    except Exception as e:
+        ctx.violation("C08/WassersteinVectorizer/LOT_exact/%s/big-generator-raises/%s" % (c["metric"], type(e).__name__),
+                      "%d distributions from a generator (memory_size=%s): %s: %s" % (n, c["memory_size"], type(e).__name__, str(e)[:160]), c, None, sig=sg)
+        return
+    ctx.count("big_generator_fits")
+    d0, d1 = pdist(t_l[:: max(1, n // 150)]), pdist(t_g[:: max(1, n // 150)])
+    scale = max(1e-12, float(d0.max()))
+    if t_g.shape != t_l.shape or np.max(np.abs(d0 - d1)) > 1e-2 * scale:
+        ctx.violation("C08/WassersteinVectorizer/LOT_exact/%s/big-generator-differs-from-lil" % c["metric"],
+                      "%d distributions (memory_size=%s): pairwise distances of the embedding differ between generator and list input by %.3g (scale %.3g)" % (
+                          n, c["memory_size"], float(np.max(np.abs(d0 - d1))) if t_g.shape == t_l.shape else np.nan, scale), c, None, sig=sg)
+        return
+    ctx.ok(sg, True)
+
+
 def run(ctx):
+    if ctx.mode != "PY" and ctx.shard % 4 == 3:
+        for i in range(ctx.pick(1, 5)):
+            r = ctx.rng("biggen", i)
+            check_big_generator(ctx, {"biggen": True, "n": r.choice([600, 700, 900]), "metric": r.choice(["cosine", "euclidean"]), "memory_size": r.choice(["20k", "24k"]), "seed": r.randrange(10**6)})
     n = ctx.pick(80, 900) if ctx.mode == "JIT" else ctx.pick(120, 900)
     for i in ctx.indices(n):
         c = gen_case(ctx.rng(ctx.mode, i))
@@ -295,6 +335,8 @@ def run(ctx):
 
 
 def replay_any(ctx, c):
+    if c.get("biggen"):
+        return check_big_generator(ctx, c)
     return check_refit(ctx, c) if "which" in c else check_case(ctx, c)
 
 
